@@ -334,7 +334,7 @@ func opaqueKind(t types.Type) (objKind, bool) {
 	switch namedPath(t) {
 	case "sync.Mutex", "sync.RWMutex":
 		return kMutex, true
-	case "sync/atomic.Bool", "sync/atomic.Int32", "sync/atomic.Int64", "sync/atomic.Uint32", "sync/atomic.Uint64", "sync/atomic.Value":
+	case "sync/atomic.Bool", "sync/atomic.Int32", "sync/atomic.Int64", "sync/atomic.Uint32", "sync/atomic.Uint64", "sync/atomic.Value", "sync/atomic.Pointer":
 		return kAtomic, true
 	case "sync.Once":
 		return kOnce, true
@@ -358,6 +358,8 @@ func (e *Engine) atomicZero(t types.Type) Value {
 		return e.cint(0, 64, false)
 	case "sync/atomic.Value":
 		return IfaceV{}
+	case "sync/atomic.Pointer":
+		return PtrV{}
 	}
 	return nil
 }
@@ -940,6 +942,7 @@ func (e *Engine) step(st *State, f *Frame, in ssa.Instruction) {
 			e.panicCheck(st, f, in, tb.ff, "assignment to entry in nil map")
 			return
 		}
+		e.guardCheck(st, f, in, m.obj, true, false)
 		e.mapUpdate(st, m, G(x.Key), G(x.Value))
 	case *ssa.Lookup:
 		e.lookup(st, f, x, G(x.X), G(x.Index))
@@ -1501,6 +1504,23 @@ func (e *Engine) mapApply(st *State, mobj int, key Value, k func(s *State, idx i
 	}
 }
 
+// guardCheck enforces a registered guarded-by relation for accesses made by library code.
+func (e *Engine) guardCheck(st *State, f *Frame, in ssa.Instruction, mobj int, write, del bool) {
+	g, ok := st.guards[mobj]
+	if !ok || (g.deletesOnly && !del) {
+		return
+	}
+	if p := e.prog.Fset.Position(in.Pos()); p.IsValid() && strings.Contains(p.Filename, "zz_verif_") {
+		return // harness code inspecting state
+	}
+	held := st.locks[g.lock]
+	if held == 0 || ((write || del) && held < 1000) {
+		e.failHere(st, g.label, "lock", "guarded table accessed without its lock @ "+e.pos(f, in))
+	} else {
+		e.incTrivial(g.label)
+	}
+}
+
 func (e *Engine) mapUpdate(st *State, m MapV, key, v Value) {
 	e.mapApply(st, m.obj, key, func(s *State, idx int) {
 		o := s.mut(m.obj)
@@ -1528,6 +1548,7 @@ func (e *Engine) lookup(st *State, f *Frame, x *ssa.Lookup, c Value, key Value) 
 			set(st, e.zeroVal(elem), false)
 			return
 		}
+		e.guardCheck(st, f, x, m.obj, false, false)
 		e.mapApply(st, m.obj, key, func(s *State, idx int) {
 			if idx >= 0 {
 				set(s, s.obj(m.obj).ents[idx].v, true)
